@@ -8,6 +8,7 @@ import Tea.Render.Program
 import Tea.Render.Fps
 import Tea.Runtime.Pipeline
 import Tea.Runtime.Lifecycle
+import Tea.Driver.LTrace
 
 open Tea Tea.Driver Tea.Input
 
@@ -427,4 +428,5 @@ def main (args : List String) : IO UInt32 := do
   | ["fps"] => loop stdin stdout stepFPS; return 0
   | ["ptrace"] => loop stdin stdout PTrace.run; return 0
   | ["life"] => loop stdin stdout LifeStream.run; return 0
+  | ["ltrace"] => loop stdin stdout Tea.Driver.LTrace.run; return 0
   | _ => IO.eprintln "usage: driver <stream>"; return 2
